@@ -27,16 +27,29 @@ deriving Repr
 structure LSt where
   s : St := {}
   hooked : List Want := []   -- dial goroutines blocked in the (test's) dial hook
+  /-- `persistConn.reused`: `tryPutIdleConn` calls `markReused` right after its two early exits
+  (keep-alives off, connection broken) and BEFORE it looks at the wait queue, so a connection
+  handed straight to a queued caller is marked exactly like one that is parked. The flag is what
+  `shouldRetryRequest` consults; it is not part of the invariants, hence kept beside `St`. -/
+  reused : List Conn := []
+
+def markIfPut (l : List Conn) (c : Conn) : Out → List Conn
+  | .put .keepAlivesDisabled => l
+  | .put .broken => l
+  | .put _ => if l.contains c then l else c :: l
+  | _ => l
 
 def st1 (cfg : Cfg) (s : St) (op : Op) : St := (step cfg s op).1
 
-/-- putOrCloseIdleConn(c) for a connection in transit -/
-def putOrClose (cfg : Cfg) (s : St) (c : Conn) : St :=
+/-- putOrCloseIdleConn(c) for a connection in transit; also what `tryPutIdleConn` returned -/
+def putOrClose' (cfg : Cfg) (s : St) (c : Conn) : St × Out :=
   let r := step cfg s (.putT c)
   match r.2 with
-  | .put .ok => r.1
-  | .put _ => st1 cfg r.1 (.closeT c)
-  | _ => r.1
+  | .put .ok => (r.1, r.2)
+  | .put _ => (st1 cfg r.1 (.closeT c), r.2)
+  | _ => (r.1, r.2)
+
+def putOrClose (cfg : Cfg) (s : St) (c : Conn) : St := (putOrClose' cfg s c).1
 
 /-- A dial goroutine that finds its want already done gives the slot back at once; one that
 finds it waiting blocks in the dial hook. -/
@@ -81,9 +94,9 @@ def mstep (cfg : Cfg) (l : LSt) : MOp → LSt × String
       let r := step cfg l.s (.dialOk w c)
       match r.2 with
       | .bool delivered =>
-        let s1 := if delivered then r.1 else putOrClose cfg r.1 c
-        let s2 := st1 cfg s1 (.dialEnd w)
-        ({ s := s2, hooked := l.hooked.erase w }, showBool delivered)
+        let pr := if delivered then (r.1, Out.none) else putOrClose' cfg r.1 c
+        let s2 := st1 cfg pr.1 (.dialEnd w)
+        ({ s := s2, hooked := l.hooked.erase w, reused := markIfPut l.reused c pr.2 }, showBool delivered)
       | _ => (l, "ign")
   | .dialFail w =>
     if !l.hooked.contains w then (l, "ign")
@@ -91,7 +104,7 @@ def mstep (cfg : Cfg) (l : LSt) : MOp → LSt × String
       let r := step cfg l.s (.dialFail w)
       match r.2 with
       | .bool delivered =>
-        ({ s := st1 cfg r.1 (.dialEnd w), hooked := l.hooked.erase w }, showBool delivered)
+        ({ l with s := st1 cfg r.1 (.dialEnd w), hooked := l.hooked.erase w }, showBool delivered)
       | _ => (l, "ign")
   | .recv w =>
     let out := match l.s.wst w with
@@ -103,10 +116,11 @@ def mstep (cfg : Cfg) (l : LSt) : MOp → LSt × String
     let r := step cfg l.s (.cancel w)
     if r.2 = .ignored then (l, "-")
     else
-      let s1 := match l.s.wst w with
-        | .gotConn c => putOrClose cfg r.1 c
-        | _ => r.1
-      ({ l with s := s1 }, "-")
+      match l.s.wst w with
+      | .gotConn c =>
+        let pr := putOrClose' cfg r.1 c
+        ({ l with s := pr.1, reused := markIfPut l.reused c pr.2 }, "-")
+      | _ => ({ l with s := r.1 }, "-")
   | .finishPut w =>
     match l.s.wst w with
     | .inUse c =>
@@ -115,7 +129,7 @@ def mstep (cfg : Cfg) (l : LSt) : MOp → LSt × String
       | .put e =>
         -- readLoop: on error it exits: pc.close(closeErr); t.removeIdleConn(pc)
         let s1 := if e = .ok then r.1 else st1 cfg (st1 cfg r.1 (.closeT c)) (.removeIdle c)
-        ({ l with s := s1 }, showPut e)
+        ({ l with s := s1, reused := markIfPut l.reused c r.2 }, showPut e)
       | _ => (l, "ign")
     | _ => (l, "ign")
   | .finishClose w =>
@@ -147,7 +161,7 @@ def sortNat (l : List Nat) : List Nat := l.mergeSort (· ≤ ·)
 
 /-- Canonical dump of the observable pool state for keys `0 … nKeys-1`, wants `0 … nWants-1`
 and connections `0 … nConns-1`. -/
-def dump (s : St) (nKeys nWants nConns : Nat) : String :=
+def dump (s : St) (nKeys nWants nConns : Nat) (reused : List Conn := []) : String :=
   let perKey := (List.range nKeys).map fun k =>
     "I" ++ toString k ++ "=" ++ joinNat (s.idle k) ++
     " W" ++ toString k ++ "=" ++ joinNat (s.idleWait k) ++
@@ -158,6 +172,11 @@ def dump (s : St) (nKeys nWants nConns : Nat) : String :=
   " X=" ++ showBool s.closeIdle ++
   " G=" ++ joinNat (sortNat s.dip) ++
   " C=" ++ joinNat ((List.range nConns).filter (fun c => s.closed c)) ++
+  -- `reused` is reported for connections the driving goroutine can see: idle-listed ones and
+  -- those a request has received
+  " U=" ++ joinNat ((List.range nConns).filter (fun c => reused.contains c &&
+      ((match s.ckey c with | some k => (s.idle k).contains c | none => false) ||
+       (List.range nWants).any (fun w => s.wst w == .inUse c)))) ++
   " S=" ++ String.ofList ((List.range nWants).map fun w =>
       if (s.wkey w).isNone then '.' else if s.wst w = .waiting then 'w' else 'd') ++
   (if s.dupPanic || s.underflow then " PANIC" else "")
@@ -168,6 +187,6 @@ def runLane (cfg : Cfg) (nKeys nWants nConns : Nat) : LSt → List MOp → List 
   | l, op :: ops =>
     let r := mstep cfg l op
     let l' := settle cfg 64 r.1
-    (r.2 ++ "/" ++ dump l'.s nKeys nWants nConns) :: runLane cfg nKeys nWants nConns l' ops
+    (r.2 ++ "/" ++ dump l'.s nKeys nWants nConns l'.reused) :: runLane cfg nKeys nWants nConns l' ops
 
 end Req.Pool.H1PoolLane
